@@ -51,7 +51,7 @@ def main(d):
                 b = pool.build_pool_harness(scratch, gates=True)
                 _, out = pool.run_scripts(scratch, b, scripts, "replay")
                 bad, verdict, js = conc.judge(scratch, conc.sections(out), "replay")
-                verdict = dict(verdict, bad=bad)
+                verdict = dict(verdict, bad=conc.for_property(bad, pid))
                 print("concurrent section: %d orders validated, %s" % (js["linearizations"], "unexplained" if bad else "explained"))
             elif scripts and scripts[0].get("random_job"):
                 _, out = pool.run_random(scratch, b, [x["random_job"] for x in scripts], "replay")
